@@ -234,6 +234,28 @@ pub struct ColorIter<'a> {
     /// what `size_hint` reports: 0 exact, 1 the default (0, None), 2 a lower bound of at most
     /// one, 3 an upper bound larger than what will be yielded - all of them legal
     pub hint: u8,
+    /// number of calls made after the stream had ended
+    pub after_end: u32,
+}
+
+/// iterator behaviour (size-hint mode, fused or not) of the streams handed to `op`: a
+/// function of the case seed and of the op itself, so that dropping other ops while
+/// minimising does not change it
+pub fn op_hint(seed: u64, op: &Op) -> u8 {
+    let mut h = crate::rng::Fnv::default();
+    h.u64(seed >> 8);
+    match op {
+        Op::DrawIter { pixels } => {
+            h.u64(pixels.len() as u64);
+            if let Some(p) = pixels.first() {
+                h.u64(p.0 as u64 ^ (p.1 as u64) << 32);
+            }
+        }
+        Op::SetPixels { sx, sy, ex, ey, colors } => h.u64(*sx as u64 | (*sy as u64) << 16 | (*ex as u64) << 32 | (*ey as u64) << 48 ^ colors.len()),
+        Op::FillContiguous { rect, colors } => h.u64(rect.x as u64 ^ (rect.y as u64) << 32 ^ (rect.w as u64) << 13 ^ (rect.h as u64) << 47 ^ colors.len()),
+        _ => {}
+    }
+    (h.0 >> 24) as u8
 }
 
 fn hint_of(mode: u8, remaining: usize) -> (usize, Option<usize>) {
@@ -257,7 +279,13 @@ impl<'a> Iterator for ColorIter<'a> {
             let v = self.colors.at(self.pos, self.space);
             self.pos += 1;
             Some(v)
+        } else if self.hint & 4 != 0 && self.after_end > 0 && self.after_end < 4 {
+            // a legal iterator that is not fused: polled again after its first `None` it
+            // yields more. Nothing of this belongs to the stream.
+            self.after_end += 1;
+            Some(0x5A5A_5A5A & (self.space - 1))
         } else {
+            self.after_end += 1;
             None
         }
     }
@@ -273,6 +301,7 @@ impl<'a> Iterator for ColorIter<'a> {
             Some(self.colors.at(target, self.space))
         } else {
             self.pos = self.colors.len();
+            self.after_end += 1;
             None
         }
     }
@@ -287,6 +316,7 @@ struct PixIter<'a> {
     i: usize,
     calls: u64,
     hint: u8,
+    after_end: u32,
 }
 impl<'a> Iterator for PixIter<'a> {
     type Item = (i32, i32, u32);
@@ -298,8 +328,15 @@ impl<'a> Iterator for PixIter<'a> {
         let r = self.v.get(self.i).copied();
         if r.is_some() {
             self.i += 1;
+            return r;
         }
-        r
+        self.after_end += 1;
+        if self.hint & 4 != 0 && self.after_end > 1 && self.after_end < 5 {
+            // not fused: polled again after the first `None`, it yields pixels that are not
+            // part of the stream (at the origin, which every display has)
+            return Some((0, 0, 0x5A5A_5A5A));
+        }
+        None
     }
     fn size_hint(&self) -> (usize, Option<usize>) {
         hint_of(self.hint, self.v.len() - self.i)
@@ -329,17 +366,17 @@ fn call_op(d: &mut dyn dut::Dut<'_>, op: &Op, clk: &mut SimClock, space: u32, vi
         Op::Reinit { .. } => unreachable!("handled by the executor"),
         Op::SetPixel { x, y, c } => d.set_pixel(*x, *y, *c & (space - 1)),
         Op::SetPixels { sx, sy, ex, ey, colors } => {
-            let mut it = ColorIter { colors, space, pos: 0, calls: 0, max_calls: colors.len() * 2 + 4096, hint };
+            let mut it = ColorIter { colors, space, pos: 0, calls: 0, max_calls: colors.len() * 2 + 4096, hint, after_end: 0 };
             d.set_pixels(*sx, *sy, *ex, *ey, &mut it)
         }
         Op::DrawIter { pixels } => {
             let masked: Vec<(i32, i32, u32)> = pixels.iter().map(|&(x, y, c)| (x, y, c & (space - 1))).collect();
-            let mut it = PixIter { v: &masked, i: 0, calls: 0, hint };
+            let mut it = PixIter { v: &masked, i: 0, calls: 0, hint, after_end: 0 };
             d.draw_iter(&mut it)
         }
         Op::FillContiguous { rect, colors } => {
             let area = (rect.w as u64 * rect.h as u64).min(1 << 24);
-            let mut it = ColorIter { colors, space, pos: 0, calls: 0, max_calls: 4 * area + 8 * visible + 4096, hint };
+            let mut it = ColorIter { colors, space, pos: 0, calls: 0, max_calls: 4 * area + 8 * visible + 4096, hint, after_end: 0 };
             d.fill_contiguous(*rect, &mut it)
         }
         Op::FillSolid { rect, c } => d.fill_solid(*rect, *c & (space - 1)),
@@ -760,7 +797,7 @@ pub fn exec_case(case: &Case, opt: &ExecOpt) -> Outcome {
                 }
             }
         } else {
-            guarded(|| call_op(dut.as_mut(), op, &mut clk, space, visible, ((case.seed >> 8) as usize).wrapping_add(i) as u8))
+            guarded(|| call_op(dut.as_mut(), op, &mut clk, space, visible, op_hint(case.seed, op)))
         };
         let (events, issues, dirty) = {
             let mut w = wr.borrow_mut();
